@@ -289,7 +289,7 @@ def plans(tier, seed):
                 ("MX", 1, True, False, False, 1), ("SX", 3, False, False, False, 0), ("SX", 2, False, False, 2, 0),
                 ("SX", 0, False, False, False, 3), ("MX", 2, True, False, False, 3), ("SX", 0, True, False, False, 4),
                 ("MX", 1, False, False, False, 4)]
-        jobs = [({"pset": 0, "d": 0, "variants": (core, core[1:3])}, specs1),
+        jobs = [({"pset": 0, "d": 0, "variants": (core, core[1:3])}, [x for x in specs1 if x[0].startswith("dev:")]),
                 ({"pset": 0, "d": 0, "variants": variant_sets("quick")},
                  specs0 + [(f"harness:{k}", s) for k, s in harness_specs(pal).items()])]
         bounds = {"shapes": "(n,m)<=(3,3): c<=1 with 8 core variants; base+uniform configurations with 38 variants",
